@@ -93,7 +93,8 @@ def impl_prog(lines, files=None, timeout=3):
         return {"k": "ok", "stmts": stmts,
                 "symtab": [[k, safe(lambda: v.hex())] for k, v in p.symbol_table.items()],
                 "origin": safe(lambda: p.origin.hex()), "originInt": safe(lambda: p.origin.int), "name": p.name,
-                "image": safe(lambda: hexs(p.get_binary_array())), "src_unchanged": src == list(lines)}
+                "image": safe(lambda: hexs(p.get_binary_array())), "src_unchanged": src == list(lines),
+                "listing": [safe(lambda: str(st)) for st in p.statements], "symlines": safe(lambda: p.get_symbol_table())}
     finally:
         os.chdir(cwd)
         if tmp:
@@ -102,7 +103,7 @@ def impl_prog(lines, files=None, timeout=3):
             os.rmdir(tmp)
 
 
-PROG_KEYS = ("stmts", "symtab", "origin", "originInt", "name", "image")
+PROG_KEYS = ("stmts", "symtab", "origin", "originInt", "name", "image", "listing", "symlines")
 
 
 def model_prog_canon(rep):
